@@ -26,6 +26,7 @@ func (fsm *storeFSM) Apply(l *raft.Log) interface{} {
 	s.mu.Lock()
 	defer s.mu.Unlock()
 
+	prev := fsm.data
 	err := func() interface{} {
 		switch cmd.GetType() {
 		case internal.Command_RemovePeerCommand:
@@ -103,7 +104,12 @@ func (fsm *storeFSM) Apply(l *raft.Log) interface{} {
 		}
 	}()
 
-	// Copy term and index to new metadata.
+	// Copy term and index to new metadata. A command that was rejected or changed
+	// nothing left the published value in place: that value may be held by a
+	// snapshot being persisted or by readers, so stamp a copy instead.
+	if fsm.data == prev {
+		fsm.data = prev.Clone()
+	}
 	fsm.data.Term = l.Term
 	fsm.data.Index = l.Index
 
